@@ -11,7 +11,8 @@
     itself accumulates it.
 
     The model is generic in the score type [S] with an order [le] and an
-    addition [add]; it is instantiated at [option Z] ([None] = -inf). *)
+    addition [add]; it is instantiated at [Z] and at [option Z] ([None] = -inf,
+    which is what log(0) gives in both inference functions). *)
 From Coq Require Import ZArith List Bool Arith.
 Import ListNotations.
 
@@ -95,6 +96,10 @@ Definition xadd (a b : option Z) : option Z :=
 
 Definition viterbi_x := @viterbi (option Z) xle xadd None.
 Definition score_x := @score (option Z) xadd None.
+
+(** * Instance: plain integers *)
+Definition viterbi_z := @viterbi Z Z.leb Z.add 0%Z.
+Definition score_z := @score Z Z.add 0%Z.
 
 (** melody_inference: the first frame "follows a rest": init = trans[0][:] + emit0 *)
 Definition melody_init (cols : list (list (option Z))) (emit0 : list (option Z)) : list (option Z) :=
